@@ -462,7 +462,16 @@ func (s *Server) challenge(w http.ResponseWriter) {
 	s.nonce++
 	n := s.nonce
 	s.mu.Unlock()
-	w.Header().Set("WWW-Authenticate", fmt.Sprintf(`Digest realm="MMS Public API", domain="", nonce="n%dQ9yZ3fEw==", algorithm=MD5, qop="auth", stale=false`, n))
+	qop, alg := "auth", "MD5"
+	switch s.cfg.Auth {
+	case "digest-qop-list":
+		qop = "auth,auth-int"
+	case "digest-qop-auth-int":
+		qop = "auth-int"
+	case "digest-sha256":
+		alg = "SHA-256"
+	}
+	w.Header().Set("WWW-Authenticate", fmt.Sprintf(`Digest realm="MMS Public API", domain="", nonce="n%dQ9yZ3fEw==", algorithm=%s, qop="%s", stale=false`, n, alg, qop))
 }
 
 // fault applies f; returns true if the response has been dealt with.
